@@ -143,20 +143,88 @@ def c_list(xs, f=str):
     return '[' + '; '.join(f(x) for x in xs) + ']'
 
 
-def coq_failing(ctx, name, ty, rows, pred, extra=''):
-    """Evaluate `pred` (a Gallina fun on one row) on all rows with vm_compute; returns failing indices."""
-    if not rows:
-        return []
-    bad = []
-    shard = 400
-    for s in range(0, len(rows), shard):
-        part = rows[s:s + shard]
-        text = HEADER + extra + f'Definition rows : list ({ty}) := [\n' + ';\n'.join(part) + '].\n'
-        text += f'Eval vm_compute in failing ({pred}) rows.\n'
-        vals = coq.parse_evals(coq.coq_eval(f'c14_{name}_{ctx.seed}_{s // shard}', text))
-        assert len(vals) == 1, vals
-        bad += [s + i for i in coq.parse_nat_list(vals[0])]
-    return bad
+EXTRA = ('Definition inpl (sign : Z) (self : pstr (K:=GQ)) (isl : bool) (l : list (plike (K:=GQ))) : pstr :=\n'
+         '  if isl then imul_contents G sign self l else\n'
+         '  match l with [x] => if (sign =? 1) then mps_inplace_right G self x else mps_inplace_left G self x | _ => self end.\n'
+         'Definition un (op : Z) (a : pstr (K:=GQ)) : pstr :=\n'
+         '  match op with 0 => ps_neg G a | 1 => a | _ => mkP (gq_inv (coef a)) (pm a) end.\n'
+         '(* compact rows of the exhaustive streams: [n; k_1..k_m; masks of m operands and of the result], coefficients i^k *)\n'
+         'Fixpoint seqZ (s : Z) (n : nat) : list Z := match n with O => [] | S m => s :: seqZ (s + 1) m end.\n'
+         'Definition decP (n : nat) (k : Z) (l : list Z) : pstr (K:=GQ) :=\n'
+         '  mkP (ipow G k) (pm_of_dense (seqZ 0 n) (map pauli_of_code (firstn n l))).\n'
+         'Definition decD (n : nat) (k : Z) (l : list Z) : dstr (K:=GQ) := mkD (ipow G k) (map pauli_of_code (firstn n l)).\n'
+         'Definition mul2x (r : list Z) : bool := match r with nz :: ka :: kb :: kr :: l => let n := Z.to_nat nz in\n'
+         '  ps_eqb (ps_mul G (decP n ka l) (decP n kb (skipn n l))) (decP n kr (skipn (2 * n) l)) | _ => false end.\n'
+         'Definition mul3x (r : list Z) : bool := match r with nz :: ka :: kb :: kc :: kr :: l => let n := Z.to_nat nz in\n'
+         '  ps_eqb (ps_mul G (ps_mul G (decP n ka l) (decP n kb (skipn n l))) (decP n kc (skipn (2 * n) l))) (decP n kr (skipn (3 * n) l))\n'
+         '  | _ => false end.\n'
+         'Definition dmul2x (r : list Z) : bool := match r with nz :: ka :: kb :: kr :: l => let n := Z.to_nat nz in\n'
+         '  ds_eqb (ds_mul G (decD n ka l) (decD n kb (skipn n l))) (decD n kr (skipn (2 * n) l)) | _ => false end.\n')
+
+_DEPS = {'built': False}
+
+
+def eval_text(name, text, timeout=900):
+    """Like coq.coq_eval, but the model is built once per run (one `make` under the shared lock) instead of once per file."""
+    import os, subprocess
+    if not _DEPS['built']:
+        ok, log = coq.make(['Base/Harness.vo', 'Cliff/Pauli.vo'])
+        if not ok:
+            raise RuntimeError('model does not build:\n' + log[-3000:])
+        _DEPS['built'] = True
+    d = os.path.join(env.BUILD, 'cases')
+    os.makedirs(d, exist_ok=True)
+    path = os.path.join(d, name + '.v')
+    open(path, 'w').write(text)
+    p = subprocess.run(['timeout', str(timeout), 'coqc', '-Q', coq.COQ, 'VF', '-w', '-all', path],
+                       stdout=subprocess.PIPE, stderr=subprocess.STDOUT, text=True, cwd=d)
+    for ext in ('.vo', '.vok', '.vos', '.glob'):
+        try:
+            os.remove(os.path.join(d, name + ext))
+        except OSError:
+            pass
+    if p.returncode != 0:
+        raise RuntimeError(f'coqc failed on {path}:\n{p.stdout[-3000:]}')
+    return p.stdout
+
+
+class Rows:
+    """Rows of one correspondence kind: Gallina text + python-side description for reports."""
+
+    def __init__(self, name, ty, pred):
+        self.name, self.ty, self.pred = name, ty, pred
+        self.rows, self.desc = [], []
+
+    def add(self, text, desc):
+        self.rows.append(text)
+        self.desc.append(desc)
+
+
+def flush_rows(ctx, tag, groups, budget=1200):
+    """Evaluate every group's predicate on its rows with vm_compute, several groups per generated file."""
+    pieces = []       # (group, start, rows)
+    for g in groups:
+        for s0 in range(0, len(g.rows), budget):
+            pieces.append((g, s0, g.rows[s0:s0 + budget]))
+    files, cur, cur_n = [], [], 0
+    for pc in pieces:
+        if cur and cur_n + len(pc[2]) > budget:
+            files.append(cur)
+            cur, cur_n = [], 0
+        cur.append(pc)
+        cur_n += len(pc[2])
+    if cur:
+        files.append(cur)
+    for fi, pcs in enumerate(files):
+        text = HEADER + EXTRA
+        for k, (g, s0, rows) in enumerate(pcs):
+            text += f'Definition rows_{k} : list ({g.ty}) := [\n' + ';\n'.join(rows) + '].\n'
+            text += f'Eval vm_compute in failing ({g.pred}) rows_{k}.\n'
+        vals = coq.parse_evals(eval_text(f'c14_{tag}_{ctx.seed}_{fi}', text))
+        assert len(vals) == len(pcs), (len(vals), len(pcs))
+        for (g, s0, rows), val in zip(pcs, vals):
+            for idx in coq.parse_nat_list(val):
+                ctx.mark_broken(f'correspondence:{g.name}', f'model and implementation differ on {g.desc[s0 + idx]}')
 
 
 # ---------------------------------------------------------------- generators
@@ -179,24 +247,36 @@ def mask_items(mask):
 
 
 # ---------------------------------------------------------------- streams: PauliString products
+def unit_exp(c):
+    return UNITS.index(c) if c in UNITS else None
+
+
+def mask_of(items, n):
+    d = dict(items)
+    return [d.get(k, 0) for k in range(n)]
+
+
 def stream_mul_exhaustive(ctx, ad, ns, triples_n):
     """All ordered pairs of letter patterns on n qubits (unit coefficients cycling), all triples on triples_n qubits."""
-    cirq = ad.cirq
-    rows, meta = [], []
+    g2 = Rows('ps_mul_exhaustive', 'list Z', 'mul2x')
+    g3 = Rows('ps_mul_triples', 'list Z', 'mul3x')
     for n in ns:
         qs = list(range(n))
         masks = all_masks(n)
         for ia, ma in enumerate(masks):
             for ib, mb in enumerate(masks):
-                a = (UNITS[(ia + ib) % 4], mask_items(ma))
-                b = (UNITS[(ia * 3 + ib // 4) % 4], mask_items(mb))
+                ka, kb = (ia + ib) % 4, (ia * 3 + ib // 4) % 4
+                a, b = (UNITS[ka], mask_items(ma)), (UNITS[kb], mask_items(mb))
                 r = ad.ps(a) * ad.ps(b)
                 out = ad.out(r)
                 nontrivial = any(x and y for x, y in zip(ma, mb))
                 ctx.count('ps_mul_exhaustive', (n, ma, mb), nontrivial,
                           sample=dict(a=str(ad.ps(a)), b=str(ad.ps(b)), product=str(r)))
-                rows.append(f'({c_ps(a)}, {c_ps(b)}, {c_ps(out)})')
-                meta.append(('mul', a, b, None, out, qs))
+                kr = unit_exp(out[0])
+                if kr is None or any(k >= n for k, _ in out[1]):
+                    ctx.mark_broken('correspondence:ps_mul_exhaustive', f'{a} * {b} gave {out}: not a unit coefficient on the operands\' qubits')
+                    kr = 0
+                g2.add(c_list([n, ka, kb, kr] + list(ma) + list(mb) + mask_of(out[1], n)), f'{a} * {b} -> {out}')
                 check_product_matrix(ctx, ad, 'ps_mul', [a, b], r, qs)
     for n in triples_n:
         qs = list(range(n))
@@ -208,22 +288,13 @@ def stream_mul_exhaustive(ctx, ad, ns, triples_n):
                     r = ad.ps(a) * ad.ps(b) * ad.ps(c)
                     out = ad.out(r)
                     ctx.count('ps_mul_triples', (n, ma, mb, mc), sum(1 for m in (ma, mb, mc) if any(m)) >= 2)
-                    rows.append(f'({c_ps(a)}, {c_ps(b)}, {c_ps(c)}, {c_ps(out)})')
-                    meta.append(('mul3', a, b, c, out, qs))
+                    kr = unit_exp(out[0])
+                    if kr is None or any(k >= n for k, _ in out[1]):
+                        ctx.mark_broken('correspondence:ps_mul_triples', f'{a} * {b} * {c} gave {out}')
+                        kr = 0
+                    g3.add(c_list([n, 1, 2, 3, kr] + list(ma) + list(mb) + list(mc) + mask_of(out[1], n)), f'{a} * {b} * {c} -> {out}')
                     check_product_matrix(ctx, ad, 'ps_mul3', [a, b, c], r, qs)
-    pair_rows = [r for r, m in zip(rows, meta) if m[0] == 'mul']
-    pair_meta = [m for m in meta if m[0] == 'mul']
-    tri_rows = [r for r, m in zip(rows, meta) if m[0] == 'mul3']
-    tri_meta = [m for m in meta if m[0] == 'mul3']
-    T = 'pstr (K:=GQ)'
-    for idx in coq_failing(ctx, 'mulx', f'{T} * {T} * {T}', pair_rows,
-                           'fun c => match c with (a, b, r) => ps_eqb (ps_mul G a b) r end'):
-        _, a, b, _, out, qs = pair_meta[idx]
-        ctx.mark_broken('correspondence:ps_mul', f'model and implementation differ on {a} * {b}: implementation gave {out}')
-    for idx in coq_failing(ctx, 'mul3', f'{T} * {T} * {T} * {T}', tri_rows,
-                           'fun c => match c with (a, b, c0, r) => ps_eqb (ps_mul G (ps_mul G a b) c0) r end'):
-        _, a, b, c, out, qs = tri_meta[idx]
-        ctx.mark_broken('correspondence:ps_mul3', f'model and implementation differ on {a} * {b} * {c}: implementation gave {out}')
+    flush_rows(ctx, 'mulx', [g2, g3], budget=6000)
 
 
 def check_product_matrix(ctx, ad, stream, operands, result, qs):
@@ -247,30 +318,880 @@ def deser_ps(d):
     return ((F(d['coef'][0]), F(d['coef'][1])), [(int(k), int(p)) for k, p in d['items']])
 
 
+# ---------------------------------------------------------------- streams: random PauliString / MutablePauliString operators
+T_PS = 'pstr (K:=GQ)'
+T_DS = 'dstr (K:=GQ)'
+
+def rand_like(rng, ad, n, depth=0):
+    """One PAULI_STRING_LIKE atom: (cirq value, Gallina plike terms (flattened), description)."""
+    cirq = ad.cirq
+    r = rng.random()
+    if r < 0.3:
+        s = rand_ps(rng, n)
+        return ad.ps(s), [f'LPS {c_ps(s)}'], ('ps', s)
+    if r < 0.42:
+        c = rand_coef(rng)
+        v = cz(c)
+        if c[1] == 0 and rng.random() < 0.5:
+            v = float(c[0]) if rng.random() < 0.5 or c[0].denominator != 1 else int(c[0])
+        return v, [f'LNum {gq(c)}'], ('num', c)
+    if r < 0.6:
+        items = [(k, rng.randint(0, 3)) for k in rng.sample(range(n), rng.randint(0, n))]
+        form = rng.randrange(3)
+        d = {ad.q(k): [ad.gates[p], 'IXYZ'[p], p][form] for k, p in items}
+        return d, [f'LMap {c_pm(items)}'], ('map', items)
+    if r < 0.7:
+        k = rng.randrange(n)
+        return cirq.I(ad.q(k)), ['LId'], ('id', k)
+    if r < 0.85 or depth > 0:
+        k, p = rng.randrange(n), rng.randint(1, 3)
+        s = (UNITS[0], [(k, p)])
+        return ad.gates[p](ad.q(k)), [f'LPS {c_ps(s)}'], ('op', s)
+    parts = [rand_like(rng, ad, n, depth + 1) for _ in range(rng.randint(0, 3))]
+    val = [x[0] for x in parts]
+    if rng.random() < 0.5:
+        val = tuple(val)
+    return val, [t for x in parts for t in x[1]], ('list', [x[2] for x in parts])
+
+
+def like_matrix(ad, d, qs):
+    kind, v = d
+    if kind in ('ps', 'op'):
+        return ad.mat(v, qs)
+    if kind == 'num':
+        return cz(v) * np.eye(2 ** len(qs), dtype=complex)
+    if kind == 'map':
+        return ad.mat((UNITS[0], [(k, p) for k, p in v if p]), qs)
+    if kind == 'id':
+        return np.eye(2 ** len(qs), dtype=complex)
+    m = np.eye(2 ** len(qs), dtype=complex)
+    for x in v:
+        m = m @ like_matrix(ad, x, qs)
+    return m
+
+
+def ser_like(d):
+    kind, v = d
+    if kind in ('ps', 'op'):
+        return [kind, ser_ps(v)]
+    if kind == 'num':
+        return [kind, [str(v[0]), str(v[1])]]
+    if kind == 'map':
+        return [kind, [[int(k), int(p)] for k, p in v]]
+    if kind == 'id':
+        return [kind, int(v)]
+    return [kind, [ser_like(x) for x in v]]
+
+
+def close(a, b):
+    return a.shape == b.shape and bool(np.allclose(a, b, atol=ATOL))
+
+
+def stream_ps_random(ctx, ad, count):
+    cirq, rng = ad.cirq, ctx.rng
+    R = {
+        'mul': Rows('ps_mul', f'{T_PS} * {T_PS} * {T_PS}', 'fun c => match c with (a, b, r) => ps_eqb (ps_mul G a b) r end'),
+        'num': Rows('ps_num', f'{T_PS} * GQ * {T_PS} * {T_PS}',
+                    'fun c => match c with (a, x, r1, r2) => ps_eqb (ps_mul_num G a x) r1 && ps_eqb (ps_scale G a x) r2 end'),
+        'div': Rows('ps_div', f'{T_PS} * GQ * {T_PS}', 'fun c => match c with (a, x, r) => ps_eqb (ps_scale G a x) r end'),
+        'un': Rows('ps_unary', f'{T_PS} * Z * {T_PS}', 'fun c => match c with (a, op, r) => ps_eqb (un op a) r end'),
+        'mapq': Rows('ps_map_qubits', f'{T_PS} * list (Z * Z) * option ({T_PS})',
+                     'fun c => match c with (a, f, r) => opt_eqb ps_eqb (ps_map_qubits f a) r end'),
+        'withq': Rows('ps_with_qubits', f'{T_PS} * list Z * option ({T_PS})',
+                      'fun c => match c with (a, l, r) => opt_eqb ps_eqb (ps_with_qubits l a) r end'),
+        'dense': Rows('ps_dense', f'{T_PS} * list Z * option ({T_DS})',
+                      'fun c => match c with (a, l, r) => opt_eqb ds_eqb (ps_dense l a) r end'),
+        'on': Rows('ds_on', f'{T_DS} * list Z * option ({T_PS})',
+                   'fun c => match c with (d, l, r) => opt_eqb ps_eqb (ds_on l d) r end'),
+        'comm': Rows('ps_commutes', f'{T_PS} * {T_PS} * bool',
+                     'fun c => match c with (a, b, r) => Bool.eqb (ps_commutes (pm a) (pm b)) r end'),
+        'make': Rows('ps_make', f'GQ * pmap * list (plike (K:=GQ)) * {T_PS}',
+                     'fun c => match c with (x, m, l, r) => ps_eqb (ps_make G x m l) r end'),
+        'inpl': Rows('mps_inplace', f'Z * {T_PS} * bool * list (plike (K:=GQ)) * {T_PS}',
+                     'fun c => match c with (sg, a, isl, l, r) => ps_eqb (inpl sg a isl l) r end'),
+    }
+    for it in range(count):
+        n = rng.choice([1, 2, 3, 3, 4, 4, 5, 5])
+        qs = list(range(n))
+        a, b = rand_ps(rng, n), rand_ps(rng, n)
+        if rng.random() < 0.15:      # same letters, different coefficient / order
+            b = (rand_coef(rng), rng.sample(a[1], len(a[1])))
+        pa, pb = ad.ps(a), ad.ps(b)
+        shared = len(set(k for k, _ in a[1]) & set(k for k, _ in b[1]))
+        # --- product, three spellings: PS*PS, Mutable*PS, PS*Mutable
+        for form in range(3):
+            if form == 0:
+                r = pa * pb
+            elif form == 1:
+                r = ad.mps(a) * pb
+            else:
+                r = pa * ad.mps(b) if rng.random() < 0.5 else ad.mps(b).__rmul__(pa)
+            out = ad.out(r)
+            ctx.count('ps_mul', (a, b, form), shared > 0, sample=dict(a=str(pa), b=str(pb), product=str(r)))
+            R['mul'].add(f'({c_ps(a)}, {c_ps(b)}, {c_ps(out)})', f'{a} * {b} (form {form}) -> {out}')
+            check_product_matrix(ctx, ad, 'ps_mul', [a, b], r, qs)
+        # --- numbers
+        x = rand_coef(rng)
+        xv = cz(x) if x[1] != 0 or rng.random() < 0.5 else float(x[0])
+        r1, r2 = ad.out(pa * xv), ad.out(xv * pa)
+        ctx.count('ps_num', (a, x), x not in UNITS[:1])
+        R['num'].add(f'({c_ps(a)}, {gq(x)}, {c_ps(r1)}, {c_ps(r2)})', f'{a} * {x}, {x} * {a} -> {r1}, {r2}')
+        d = rand_invertible(rng)
+        dv = cz(d) if d[1] != 0 or rng.random() < 0.5 else float(d[0])
+        r3 = ad.out(pa / dv)
+        ctx.count('ps_div', (a, d), True)
+        R['div'].add(f'({c_ps(a)}, {gq(zinv(d))}, {c_ps(r3)})', f'{a} / {d} -> {r3}')
+        # --- unary: neg, pos, **1, **-1
+        op = rng.randrange(4)
+        au = a if op < 3 else (rand_invertible(rng), a[1])
+        pu = ad.ps(au)
+        ru = [-pu, +pu if rng.random() < 0.5 else pu ** 1, pu ** -1 if op == 3 else -pu][min(op, 2)] if op != 3 else pu ** -1
+        ctx.count('ps_unary', (au, op), True, sample=dict(a=str(pu), op=['neg', 'pos/pow1', 'neg', 'pow-1'][op], out=str(ru)))
+        R['un'].add(f'({c_ps(au)}, {[0, 1, 0, 2][op]}, {c_ps(ad.out(ru))})', f'unary {op} on {au} -> {ad.out(ru)}')
+        if op == 3:
+            qm = [ad.q(k) for k in qs]
+            if not close(ru.matrix(qm) @ pu.matrix(qm), np.eye(2 ** n)):
+                ctx.violation('ps_pow:-1', f'({au}) ** -1 is not the inverse matrix', dict(kind='pow_inv', a=ser_ps(au), qubits=qs))
+        # --- map_qubits / with_qubits
+        tgt = rng.sample(range(10, 10 + n + 2), n)
+        f = [(k, t) for k, t in zip(qs, tgt)]
+        if rng.random() < 0.2 and a[1]:
+            f = [e for e in f if e[0] != a[1][0][0]]       # a needed key missing -> ValueError
+        rng.shuffle(f)
+        try:
+            rm = ad.out(pa.map_qubits({ad.q(k): ad.q(t) for k, t in f}))
+        except ValueError:
+            rm = None
+        ctx.count('ps_map_qubits', (a, f), len(a[1]) > 0)
+        R['mapq'].add(f'({c_ps(a)}, {c_list(f, lambda e: f"({e[0]}, {e[1]})")}, {c_opt(rm, c_ps)})', f'{a}.map_qubits({f}) -> {rm}')
+        if rm is not None:
+            fm = dict(f)
+            if all(k in fm for k in qs) and not close(ad.ps(rm).matrix([ad.q(fm[k]) for k in qs]), ad.mat(a, qs)):
+                ctx.violation('ps_map_qubits:matrix', f'{a}.map_qubits({f}) changes the matrix', dict(kind='map_qubits', a=ser_ps(a), f=f, qubits=qs))
+        newq = rng.sample(range(20, 30), len(a[1]) if rng.random() < 0.85 else len(a[1]) + 1)
+        try:
+            rw = ad.out(pa.with_qubits(*[ad.q(t) for t in newq]))
+        except ValueError:
+            rw = None
+        ctx.count('ps_with_qubits', (a, newq), len(a[1]) > 0)
+        R['withq'].add(f'({c_ps(a)}, {coq.zlist(newq)}, {c_opt(rw, c_ps)})', f'{a}.with_qubits({newq}) -> {rw}')
+        # --- dense(qubits), gate, DensePauliString.on
+        dq = rng.sample(qs, n) if rng.random() < 0.8 else rng.sample(qs, max(n - 1, 0))
+        try:
+            rd = ad.dout(pa.dense([ad.q(k) for k in dq]))
+        except ValueError:
+            rd = None
+        ctx.count('ps_dense', (a, dq), len(a[1]) > 0)
+        R['dense'].add(f'({c_ps(a)}, {coq.zlist(dq)}, {c_opt(rd, c_ds)})', f'{a}.dense({dq}) -> {rd}')
+        g = pa.gate
+        if g.on(*pa.qubits) != pa or ad.dout(g)[0] != a[0]:
+            ctx.violation('ps_gate', f'{a}.gate.on(*qubits) is not the string', dict(kind='gate', a=ser_ps(a)))
+        dd = (rand_coef(rng), [rng.randint(0, 3) for _ in range(n)])
+        oq = rng.sample(range(n + 1), n) if rng.random() < 0.85 else rng.sample(range(n + 1), n - 1)
+        try:
+            ro = ad.out(ad.dps(dd).on(*[ad.q(k) for k in oq]))
+        except ValueError:
+            ro = None
+        ctx.count('ds_on', (dd, oq), any(dd[1]))
+        R['on'].add(f'({c_ds(dd)}, {coq.zlist(oq)}, {c_opt(ro, c_ps)})', f'{dd}.on({oq}) -> {ro}')
+        # --- commutes
+        rc = bool(cirq.commutes(pa, pb))
+        ctx.count('ps_commutes', (a[1], b[1]), shared > 0, sample=dict(a=str(pa), b=str(pb), commutes=rc))
+        R['comm'].add(f'({c_ps(a)}, {c_ps(b)}, {"true" if rc else "false"})', f'commutes({a}, {b}) -> {rc}')
+        ma, mb = ad.mat(a, qs), ad.mat(b, qs)
+        if not close(ma @ mb, (1 if rc else -1) * (mb @ ma)):
+            ctx.violation('ps_commutes:matrix', f'cirq.commutes({a}, {b}) = {rc} but the matrices {"do not commute" if rc else "do not anticommute"}',
+                          dict(kind='commutes', a=ser_ps(a), b=ser_ps(b), qubits=qs))
+        # --- constructor with contents
+        parts = [rand_like(rng, ad, n) for _ in range(rng.randint(0, 3))]
+        c0, m0 = rand_coef(rng), rand_items(rng, n, 0.5)
+        kw = dict(qubit_pauli_map={ad.q(k): ad.gates[p] for k, p in m0}, coefficient=cz(c0))
+        mutable = rng.random() < 0.4
+        if mutable:
+            obj = cirq.MutablePauliString(*[x[0] for x in parts], coefficient=cz(c0),
+                                          pauli_int_dict={ad.q(k): p for k, p in m0}).frozen()
+        else:
+            obj = cirq.PauliString(*[x[0] for x in parts], **kw)
+        rmk = ad.out(obj)
+        terms = [t for x in parts for t in x[1]]
+        ctx.count('ps_make', (c0, m0, [x[2] for x in parts]), len(parts) > 0, sample=dict(contents=str([x[2] for x in parts]), out=str(obj)))
+        R['make'].add(f'({gq(c0)}, {c_pm(m0)}, {c_list(terms)}, {c_ps(rmk)})',
+                      f'{"Mutable" if mutable else ""}PauliString({[x[2] for x in parts]}, map={m0}, coefficient={c0}) -> {rmk}')
+        ref = ad.mat((c0, m0), qs)
+        for x in parts:
+            ref = ref @ like_matrix(ad, x[2], qs)
+        if not close(obj.matrix([ad.q(k) for k in qs]), ref):
+            ctx.violation('ps_make:matrix', f'PauliString(contents, qubit_pauli_map, coefficient) is not map . contents in order',
+                          dict(kind='make', coef=[str(c0[0]), str(c0[1])], items=[[k, p] for k, p in m0],
+                               contents=[ser_like(x[2]) for x in parts], qubits=qs, mutable=mutable))
+        # --- in-place products of mutable strings (specified through the immutable product they implement)
+        x = rand_like(rng, ad, n)
+        which = rng.randrange(3)
+        m = ad.mps(a)
+        ret = [m.inplace_left_multiply_by, m.inplace_right_multiply_by, m.__imul__][which](x[0])
+        if ret is not m:
+            ctx.violation('mps_inplace:return', f'in-place multiplication {which} did not return self', dict(kind='inplace_ret', which=which))
+        ri = ad.out(m.frozen())
+        sg = -1 if which == 0 else 1
+        isl = x[2][0] == 'list'
+        ctx.count('mps_inplace', (a, which, x[2]), True,
+                  sample=dict(self=str(pa), op=['inplace_left_multiply_by', 'inplace_right_multiply_by', '__imul__'][which],
+                              other=str(x[2]), out=str(m)))
+        R['inpl'].add(f'({Z(sg)}, {c_ps(a)}, {"true" if isl else "false"}, {c_list(x[1])}, {c_ps(ri)})',
+                      f'mutable {a} op{which} {x[2]} -> {ri}')
+        mx = like_matrix(ad, x[2], qs)
+        ref = ma @ mx if which == 0 else mx @ ma
+        if not close(m.frozen().matrix([ad.q(k) for k in qs]), ref):
+            ctx.violation('mps_inplace:matrix', f'mutable string in-place product {which} does not implement the immutable product',
+                          dict(kind='inplace', a=ser_ps(a), which=which, other=ser_like(x[2]), qubits=qs))
+        # other small operators, checked directly on the implementation
+        mm = ad.mps(a)
+        if ad.out((-mm).frozen()) != ((-a[0][0], -a[0][1]), a[1]) or ad.out(mm.frozen()) != a or ad.out(mm.mutable_copy().frozen()) != a:
+            ctx.violation('mps_neg', f'-MutablePauliString({a}) wrong or mutated its operand', dict(kind='mps_neg', a=ser_ps(a)))
+        tq = ad.out(mm.transform_qubits(lambda q: ad.q(q.x + 7)).frozen())
+        if tq != (a[0], [(k + 7, p) for k, p in a[1]]):
+            ctx.violation('mps_transform_qubits', f'transform_qubits on {a} gave {tq}', dict(kind='mps_tq', a=ser_ps(a)))
+        if (pa == pb) != (a[0] == b[0] and sorted(a[1]) == sorted(b[1])) or \
+                pa.equal_up_to_coefficient(pb) != (sorted(a[1]) == sorted(b[1])):
+            ctx.violation('ps_eq', f'equality of {a} and {b} is not equality of coefficient and letters', dict(kind='ps_eq', a=ser_ps(a), b=ser_ps(b)))
+    flush_rows(ctx, 'psr', list(R.values()))
+
+
+# ---------------------------------------------------------------- streams: dense strings
+def stream_dense(ctx, ad, count, exhaustive_n):
+    cirq, rng = ad.cirq, ctx.rng
+    R = {
+        'mul': Rows('ds_mul', f'{T_DS} * {T_DS} * {T_DS}', 'fun c => match c with (a, b, r) => ds_eqb (ds_mul G a b) r end'),
+        'imul': Rows('ds_imul', f'{T_DS} * {T_DS} * option ({T_DS})',
+                     'fun c => match c with (a, b, r) => opt_eqb ds_eqb (ds_imul G a b) r end'),
+        'scal': Rows('ds_scale', f'{T_DS} * GQ * {T_DS}', 'fun c => match c with (a, x, r) => ds_eqb (ds_scale G a x) r end'),
+        'pow': Rows('ds_pow', f'{T_DS} * Z * {T_DS}',
+                    'fun c => match c with (a, k, r) => ds_eqb (ds_pow G a k (gq_powZ (dcoef a) k)) r end'),
+        'neg': Rows('ds_neg', f'{T_DS} * {T_DS}', 'fun c => match c with (a, r) => ds_eqb (ds_neg G a) r end'),
+        'tens': Rows('ds_tensor', f'{T_DS} * {T_DS} * {T_DS}', 'fun c => match c with (a, b, r) => ds_eqb (ds_tensor G a b) r end'),
+        'comm': Rows('ds_commutes', 'list pauli * list pauli * bool',
+                     'fun c => match c with (a, b, r) => Bool.eqb (ds_commutes a b) r end'),
+    }
+
+    GX = Rows('ds_mul_exhaustive', 'list Z', 'dmul2x')
+
+    def one_pair(a, b, exhaustive):
+        da, db = ad.dps(a), ad.dps(b)
+        r = da * db
+        out = ad.dout(r)
+        st = 'ds_mul_exhaustive' if exhaustive else 'ds_mul'
+        ctx.count(st, (a, b), any(x and y for x, y in zip(a[1], b[1])), sample=dict(a=str(da), b=str(db), product=str(r)))
+        if exhaustive:
+            kr = unit_exp(out[0])
+            if kr is None or len(out[1]) != len(a[1]):
+                ctx.mark_broken('correspondence:ds_mul_exhaustive', f'{a} * {b} gave {out}')
+                kr = 0
+            GX.add(c_list([len(a[1]), unit_exp(a[0]), unit_exp(b[0]), kr] + list(a[1]) + list(b[1]) + list(out[1])[:len(a[1])]),
+                   f'{a} * {b} -> {out}')
+        else:
+            R['mul'].add(f'({c_ds(a)}, {c_ds(b)}, {c_ds(out)})', f'{a} * {b} -> {out}')
+        n = max(len(a[1]), len(b[1]))
+        pad = lambda m: list(m) + [0] * (n - len(m))
+        ref = cz(a[0]) * kron_all([PM[p] for p in pad(a[1])]) @ (cz(b[0]) * kron_all([PM[p] for p in pad(b[1])]))
+        got = cz(out[0]) * kron_all([PM[p] for p in out[1]])
+        if not close(got, ref):
+            ctx.violation('ds_mul:matrix', f'DensePauliString product {a} * {b} = {out} is not the product of the matrices',
+                          dict(kind='dense_product', a=ser_ds(a), b=ser_ds(b)))
+        rc = bool(cirq.commutes(da, db))
+        ctx.count('ds_commutes', (a[1], b[1]), True)
+        R['comm'].add(f'({c_mask(a[1])}, {c_mask(b[1])}, {"true" if rc else "false"})', f'commutes({a[1]}, {b[1]}) -> {rc}')
+        A_, B_ = kron_all([PM[p] for p in pad(a[1])]), kron_all([PM[p] for p in pad(b[1])])
+        if not close(A_ @ B_, (1 if rc else -1) * (B_ @ A_)):
+            ctx.violation('ds_commutes:matrix', f'commutes({a[1]}, {b[1]}) = {rc} contradicts the matrices',
+                          dict(kind='dense_commutes', a=ser_ds(a), b=ser_ds(b)))
+
+    for n in exhaustive_n:
+        for ia, ma in enumerate(all_masks(n)):
+            for ib, mb in enumerate(all_masks(n)):
+                one_pair((UNITS[(ia + 2 * ib) % 4], list(ma)), (UNITS[(ia // 4 + ib) % 4], list(mb)), True)
+    for it in range(count):
+        la, lb = rng.randint(0, 5), rng.randint(0, 5)
+        if rng.random() < 0.5:
+            lb = la
+        a = (rand_coef(rng), [rng.randint(0, 3) for _ in range(la)])
+        b = (rand_coef(rng), [rng.randint(0, 3) for _ in range(lb)])
+        one_pair(a, b, False)
+        # mutable *=
+        ma_ = ad.dps(a, mutable=True)
+        other = ad.dps(b, mutable=rng.random() < 0.3)
+        try:
+            ret = ma_.__imul__(other)
+            ri = ad.dout(ma_)
+            if ret is not ma_:
+                ctx.violation('ds_imul:return', 'MutableDensePauliString.__imul__ did not return self', dict(kind='ds_imul_ret'))
+        except ValueError:
+            ri = None
+        ctx.count('ds_imul', (a, b), lb <= la and lb > 0)
+        R['imul'].add(f'({c_ds(a)}, {c_ds(b)}, {c_opt(ri, c_ds)})', f'mutable {a} *= {b} -> {ri}')
+        # scalars
+        x = rand_coef(rng)
+        xv = cz(x) if x[1] != 0 or rng.random() < 0.5 else float(x[0])
+        da = ad.dps(a, mutable=rng.random() < 0.3)
+        for r in (da * xv, xv * da):
+            ctx.count('ds_scale', (a, x, id(r) % 2), True)
+            R['scal'].add(f'({c_ds(a)}, {gq(x)}, {c_ds(ad.dout(r))})', f'{a} * {x} -> {ad.dout(r)}')
+        d = rand_invertible(rng)
+        r = da / (cz(d) if d[1] != 0 else float(d[0]))
+        ctx.count('ds_scale', (a, 'div', d), True)
+        R['scal'].add(f'({c_ds(a)}, {gq(zinv(d))}, {c_ds(ad.dout(r))})', f'{a} / {d} -> {ad.dout(r)}')
+        mi = ad.dps(a, mutable=True)
+        mi *= xv
+        R['scal'].add(f'({c_ds(a)}, {gq(x)}, {c_ds(ad.dout(mi))})', f'mutable {a} *= {x} -> {ad.dout(mi)}')
+        ctx.count('ds_scale', (a, 'imul', x), True)
+        # powers
+        k = rng.randint(-3, 4)
+        ap = a if k >= 0 and rng.random() < 0.6 else ((rand_invertible(rng) if rng.random() < 0.5 else rng.choice(UNITS)), a[1])
+        rp = ad.dps(ap) ** k
+        ctx.count('ds_pow', (ap, k), k not in (0, 1), sample=dict(a=str(ad.dps(ap)), power=k, out=str(rp)))
+        R['pow'].add(f'({c_ds(ap)}, {Z(k)}, {c_ds(ad.dout(rp))})', f'{ap} ** {k} -> {ad.dout(rp)}')
+        base = cz(ap[0]) * kron_all([PM[p] for p in ap[1]])
+        if not close(cz(ad.dout(rp)[0]) * kron_all([PM[p] for p in ad.dout(rp)[1]]), np.linalg.matrix_power(base, k)):
+            ctx.violation('ds_pow:matrix', f'DensePauliString {ap} ** {k} is not the matrix power', dict(kind='dense_pow', a=ser_ds(ap), k=k))
+        # neg, tensor product
+        rn = -da
+        ctx.count('ds_neg', a, True)
+        R['neg'].add(f'({c_ds(a)}, {c_ds(ad.dout(rn))})', f'-{a} -> {ad.dout(rn)}')
+        rt = ad.dps(a).tensor_product(ad.dps(b))
+        ctx.count('ds_tensor', (a, b), la > 0 and lb > 0)
+        R['tens'].add(f'({c_ds(a)}, {c_ds(b)}, {c_ds(ad.dout(rt))})', f'{a} (x) {b} -> {ad.dout(rt)}')
+        # constructors / views, checked directly
+        if la:
+            i = rng.randrange(la)
+            p = rng.randint(0, 3)
+            oh = type(da).one_hot(index=i, length=la, pauli=[ad.gates[p], 'IXYZ'[p], p][rng.randrange(3)])
+            if ad.dout(oh) != (UNITS[0], [p if j == i else 0 for j in range(la)]) or ad.dout(type(da).eye(la)) != (UNITS[0], [0] * la):
+                ctx.violation('ds_one_hot', f'one_hot/eye wrong for index {i} length {la} pauli {p}', dict(kind='one_hot'))
+            lo, hi = sorted((rng.randint(0, la), rng.randint(0, la)))
+            if ad.dout(da[lo:hi]) != (UNITS[0], a[1][lo:hi]) or da[i] is not ad.gates[a[1][i]]:
+                ctx.violation('ds_getitem', f'slice/index of {a} wrong', dict(kind='ds_getitem'))
+            mm = ad.dps(a, mutable=True)
+            mm[i] = ad.gates[p]
+            if ad.dout(mm) != (a[0], [p if j == i else x for j, x in enumerate(a[1])]) or ad.dout(da.frozen()) != a \
+                    or ad.dout(da.mutable_copy()) != a or ad.dout(da.copy()) != a:
+                ctx.violation('ds_setitem', f'__setitem__/copies of {a} wrong', dict(kind='ds_setitem'))
+        ctx.count('ds_views', (a, 'views'), la > 0)
+        # dense string times a Pauli operation / PauliString on LineQubits (interpreted through the qubit index)
+        n = max(la, 1)
+        s = rand_ps(rng, n) if rng.random() < 0.7 else (UNITS[0], [(rng.randrange(n), rng.randint(1, 3))])
+        for left in (True, False):
+            dense_times_string(ctx, ad, a, s, left)
+    flush_rows(ctx, 'dense', list(R.values()) + [GX], budget=3000)
+
+
+def ser_ds(d):
+    return dict(coef=[str(d[0][0]), str(d[0][1])], mask=[int(p) for p in d[1]])
+
+
+def deser_ds(d):
+    return ((F(d['coef'][0]), F(d['coef'][1])), [int(p) for p in d['mask']])
+
+
+def dense_times_string(ctx, ad, a, s, left, count=True):
+    """DensePauliString * PauliString (on LineQubits) and the reverse: matrices must multiply, coefficient included."""
+    da, ps = ad.dps(a), ad.ps(s)
+    if count:
+        ctx.count('ds_times_string', (a, s, left), len(s[1]) > 0, sample=dict(dense=str(da), string=str(ps), left=left))
+    rp = dict(kind='dense_times_string', a=ser_ds(a), s=ser_ps(s), left=left)
+    try:
+        r = da * ps if left else ps * da
+    except TypeError as e:
+        ctx.violation('dense:mul-pauli-string:raises' + ('' if s[1] else ':identity-string'),
+                      f'{"DensePauliString * PauliString" if left else "PauliString * DensePauliString"} raises TypeError for '
+                      f'{da!r} and {ps!r}: {e}', rp)
+        return False
+    n = max([len(a[1])] + [k + 1 for k, _ in s[1]])
+    qs = list(range(n))
+    A_ = cz(a[0]) * kron_all([PM[p] for p in list(a[1]) + [0] * (n - len(a[1]))])
+    S_ = ad.mat(s, qs)
+    ref = A_ @ S_ if left else S_ @ A_
+    out = ad.dout(r)
+    got = cz(out[0]) * kron_all([PM[p] for p in out[1]])
+    if not close(got, ref):
+        unit = s[0] == UNITS[0]
+        sig = 'dense:mul-pauli-string:' + ('letters' if unit else 'coefficient-dropped')
+        ctx.violation(sig, f'{"DensePauliString * PauliString" if left else "PauliString * DensePauliString"}: {da!r} and {ps!r} give '
+                           f'{r!r}, whose matrix is not the product of the operands\' matrices'
+                           + ('' if unit else ' (the coefficient of the PauliString operand is dropped)'), rp)
+        return False
+    return True
+
+
+# ---------------------------------------------------------------- streams: Pauli sums
+def c_sum(terms):
+    return '[' + '; '.join(f'({c_pm(k)}, {gq(c)})' for c, k in terms) + ']'
+
+
+def sum_terms_of(ad, ps):
+    return [(c, sorted(k)) for c, k in ad.sum_out(ps)]
+
+
+def canon_terms(terms):
+    """case-language terms -> the model's input sum (keys sorted, merged by the model itself)."""
+    return [(c, sorted(items)) for c, items in terms]
+
+
+def sum_matrix(ad, terms, qs):
+    m = np.zeros((2 ** len(qs),) * 2, dtype=complex)
+    for t in terms:
+        m = m + ad.mat(t, qs)
+    return m
+
+
+def stream_sums(ctx, ad, count):
+    cirq, rng = ad.cirq, ctx.rng
+    TS = 'psumG'
+    R = {
+        'from': Rows('psum_from_strings', f'list ({T_PS}) * {TS}',
+                     'fun c => match c with (l, r) => psum_eqb (psum_of_terms G l) r end'),
+        'bin': Rows('psum_binary', f'Z * list ({T_PS}) * list ({T_PS}) * {TS}',
+                    'fun c => match c with (op, la, lb, r) => let a := psum_of_terms G la in let b := psum_of_terms G lb in '
+                    'psum_eqb (match op with 0 => psum_add G a b | 1 => psum_sub G a b | _ => psum_mul G a b end) r end'),
+        'un': Rows('psum_unary', f'Z * list ({T_PS}) * GQ * {TS}',
+                   'fun c => match c with (op, la, x, r) => let a := psum_of_terms G la in '
+                   'psum_eqb (match op with 0 => psum_neg G a | 1 => psum_scale G a x | _ => psum_pow G a (Z.to_nat (op - 2)) end) r end'),
+    }
+    for it in range(count):
+        n = rng.choice([1, 2, 2, 3, 3, 4, 5])
+        qs = list(range(n))
+        qm = [ad.q(k) for k in qs]
+        mk = lambda: [rand_ps(rng, n, p_present=0.5) for _ in range(rng.randint(0, 3))]
+        ta, tb = mk(), mk()
+        if ta and rng.random() < 0.3:      # repeated / cancelling keys
+            c, items = rng.choice(ta)
+            ta.append(((-c[0], -c[1]) if rng.random() < 0.5 else rand_coef(rng), rng.sample(items, len(items))))
+        A_, B_ = ad.psum(ta), ad.psum(tb)
+        ctx.count('psum_from_strings', ta, len(ta) > 1, sample=dict(terms=[str(ad.ps(t)) for t in ta], sum=str(A_)))
+        R['from'].add(f'({c_list(ta, c_ps)}, {c_sum(sum_terms_of(ad, A_))})', f'from_pauli_strings({ta}) -> {ad.sum_out(A_)}')
+        MA, MB = sum_matrix(ad, ta, qs), sum_matrix(ad, tb, qs)
+        if not close(A_.matrix(qm), MA):
+            ctx.violation('psum_matrix', f'PauliSum.from_pauli_strings({ta}).matrix differs from the sum of the matrices',
+                          dict(kind='psum', op='from', a=[ser_ps(t) for t in ta], b=[], qubits=qs))
+        # binary operators in all their spellings
+        op = rng.randrange(3)
+        spelled = rng.randrange(4)
+        if op == 0:
+            if spelled == 0 or not tb:
+                res = A_ + B_
+            elif spelled == 1:
+                res = A_.copy()
+                res += B_
+            elif spelled == 2 and len(tb) == 1:
+                res = A_ + ad.ps(tb[0])
+            elif len(ta) == 1 and len(tb) == 1:
+                res = ad.ps(ta[0]) + ad.ps(tb[0])
+            else:
+                res = B_.__radd__(A_)
+            ref = MA + MB
+        elif op == 1:
+            if spelled == 0 or not tb:
+                res = A_ - B_
+            elif spelled == 1:
+                res = A_.copy()
+                res -= B_
+            elif spelled == 2 and len(tb) == 1:
+                res = A_ - ad.ps(tb[0])
+            elif len(ta) == 1 and len(tb) == 1:
+                res = ad.ps(ta[0]) - ad.ps(tb[0])
+            else:
+                res = B_.__rsub__(A_)
+            ref = MA - MB
+        else:
+            if spelled == 0 or not tb or not ta:
+                res = A_ * B_
+            elif spelled == 1:
+                res = A_.copy()
+                res *= B_
+            elif spelled == 2 and len(tb) == 1:
+                res = A_ * ad.ps(tb[0])
+            elif len(ta) == 1:
+                res = ad.ps(ta[0]) * B_
+            else:
+                res = A_ * B_
+            ref = MA @ MB
+        ctx.count('psum_binary', (op, ta, tb), bool(ta) and bool(tb),
+                  sample=dict(op='+-*'[op], a=str(A_), b=str(B_), out=str(res)))
+        R['bin'].add(f'({op}, {c_list(ta, c_ps)}, {c_list(tb, c_ps)}, {c_sum(sum_terms_of(ad, res))})',
+                     f'PauliSum {ta} {"+-*"[op]} {tb} (spelling {spelled}) -> {ad.sum_out(res)}')
+        if not close(res.matrix(qm), ref):
+            ctx.violation(f'psum_{["add", "sub", "mul"][op]}:matrix', f'PauliSum {ta} {"+-*"[op]} {tb}: matrix is not the {"+-*"[op]} of the matrices',
+                          dict(kind='psum', op='+-*'[op], a=[ser_ps(t) for t in ta], b=[ser_ps(t) for t in tb], qubits=qs))
+        # unary: neg, scalar (both sides, division), powers, number +/- sum
+        uo = rng.randrange(4)
+        x = rand_coef(rng)
+        if uo == 0:
+            res, ref, code, xs = -A_, -MA, 0, UNITS[0]
+        elif uo == 1:
+            xv = cz(x) if x[1] != 0 or rng.random() < 0.5 else float(x[0])
+            res = A_ * xv if rng.random() < 0.5 else xv * A_
+            ref, code, xs = MA * cz(x), 1, x
+        elif uo == 2:
+            d = rand_invertible(rng)
+            res, ref, code, xs = A_ / (cz(d) if d[1] != 0 else float(d[0])), MA / cz(d), 1, zinv(d)
+        else:
+            k = rng.randint(0, 3)
+            res, ref, code, xs = A_ ** k, np.linalg.matrix_power(MA, k), 2 + k, UNITS[0]
+        ctx.count('psum_unary', (uo, ta, xs, code), bool(ta), sample=dict(op=['neg', 'scale', 'div', 'pow'][uo], a=str(A_), out=str(res)))
+        R['un'].add(f'({code}, {c_list(ta, c_ps)}, {gq(xs)}, {c_sum(sum_terms_of(ad, res))})',
+                    f'PauliSum unary {uo}/{code} on {ta} with {xs} -> {ad.sum_out(res)}')
+        if not close(res.matrix(qm), ref):
+            ctx.violation(f'psum_unary{uo}:matrix', f'PauliSum operator {["neg", "scale", "div", "pow"][uo]} on {ta}: wrong matrix',
+                          dict(kind='psum_unary', op=uo, code=code, a=[ser_ps(t) for t in ta], x=[str(xs[0]), str(xs[1])], qubits=qs))
+        # number + string, number - string, wrap, with_qubits: matrix oracles on the implementation
+        if ta:
+            t0 = ta[0]
+            for res, ref, what in ((cz(x) + ad.ps(t0), cz(x) * np.eye(2 ** n) + ad.mat(t0, qs), 'number + PauliString'),
+                                   (cz(x) - ad.ps(t0), cz(x) * np.eye(2 ** n) - ad.mat(t0, qs), 'number - PauliString'),
+                                   (A_ + cz(x), MA + cz(x) * np.eye(2 ** n), 'PauliSum + number'),
+                                   (cz(x) - A_, cz(x) * np.eye(2 ** n) - MA, 'number - PauliSum')):
+                ctx.count('psum_numbers', (what, t0, x), True)
+                if not close(res.matrix(qm), ref):
+                    ctx.violation('psum_numbers:' + what, f'{what} with {x}, {t0}: wrong matrix',
+                                  dict(kind='psum_numbers', what=what, a=[ser_ps(t) for t in ta], x=[str(x[0]), str(x[1])], qubits=qs))
+            used = A_.qubits
+            newq = [ad.q(40 + j) for j in rng.sample(range(len(used) + 2), len(used))]
+            W = A_.with_qubits(*newq)
+            ctx.count('psum_with_qubits', (ta, [q.x for q in newq]), len(used) > 0)
+            if not close(W.matrix(newq), A_.matrix(list(used))):
+                ctx.violation('psum_with_qubits', f'PauliSum.with_qubits changes the matrix for {ta}',
+                              dict(kind='psum_with_qubits', a=[ser_ps(t) for t in ta], new=[q.x for q in newq]))
+    flush_rows(ctx, 'sums', list(R.values()))
+
+
+# ---------------------------------------------------------------- oracles on the implementation: conjugation by Cliffords
+def clifford_ops(cirq, rng, n, ad):
+    """A random Clifford operation on qubits < n."""
+    one = [cirq.H, cirq.S, cirq.S ** -1, cirq.X, cirq.Y, cirq.Z, cirq.X ** 0.5, cirq.X ** -0.5, cirq.Y ** 0.5, cirq.Y ** -0.5]
+    two = [cirq.CZ, cirq.CNOT, cirq.SWAP, cirq.ISWAP, cirq.ISWAP ** -1, cirq.CX, cirq.CY if hasattr(cirq, 'CY') else cirq.CZ]
+    if n >= 2 and rng.random() < 0.5:
+        a, b = rng.sample(range(n), 2)
+        return rng.choice(two)(ad.q(a), ad.q(b))
+    return rng.choice(one)(ad.q(rng.randrange(n)))
+
+
+def conj_case(ctx, ad, s, ops, qs, which, stream):
+    """which: 'conjugated_by'/'before' -> C^dag P C, 'after' -> C P C^dag, with C the circuit ops in order."""
+    cirq = ad.cirq
+    qm = [ad.q(k) for k in qs]
+    p = ad.ps(s)
+    if which == 'conjugated_by':
+        r = p.conjugated_by(ops)
+    elif which == 'before':
+        r = p.before(ops)
+    elif which == 'after':
+        r = p.after(ops)
+    elif which == 'inplace_before':
+        r = ad.mps(s).inplace_before(ops).frozen()
+    else:
+        r = ad.mps(s).inplace_after(ops).frozen()
+    C = cirq.Circuit(ops).unitary(qubit_order=qm) if ops else np.eye(2 ** len(qs))
+    P = ad.mat(s, qs)
+    ref = C @ P @ C.conj().T if which in ('after', 'inplace_after') else C.conj().T @ P @ C
+    if not close(r.matrix(qm), ref):
+        ctx.violation(f'conj:{which}', f'{which}: {p} by {ops} gives {r}, not the conjugated matrix',
+                      dict(kind='conj', which=which, s=ser_ps(s), ops=[ser_op(ad, o) for o in ops], qubits=qs))
+        return False
+    return True
+
+
+def ser_op(ad, op):
+    cirq = ad.cirq
+    return cirq.to_json(op)
+
+
+def stream_conjugation(ctx, ad, count, two_qubit_exhaustive):
+    cirq, rng = ad.cirq, ctx.rng
+    # all 24 single-qubit Cliffords x {X,Y,Z} x sign
+    q0 = ad.q(0)
+    for g in cirq.SingleQubitCliffordGate.all_single_qubit_cliffords:
+        for p in (1, 2, 3):
+            for c in (UNITS[0], UNITS[2], UNITS[1]):
+                for which in ('conjugated_by', 'after'):
+                    ctx.count('conj_24', (str(g), p, c, which), True,
+                              sample=dict(gate=str(g), pauli='IXYZ'[p], which=which))
+                    conj_case(ctx, ad, (c, [(0, p)]), [g(q0)], [0], which, 'conj_24')
+    # two-qubit named Cliffords x all 15 two-qubit strings
+    two = [cirq.CZ, cirq.CNOT, cirq.SWAP, cirq.ISWAP, cirq.ISWAP ** -1, cirq.CZ ** -1]
+    for g in two:
+        for ma in all_masks(2):
+            if any(ma):
+                for order in ((0, 1), (1, 0)):
+                    for which in ('conjugated_by', 'after'):
+                        ctx.count('conj_2q', (str(g), ma, order, which), True)
+                        conj_case(ctx, ad, (UNITS[0], mask_items(ma)), [g(ad.q(order[0]), ad.q(order[1]))], [0, 1], which, 'conj_2q')
+    if two_qubit_exhaustive:
+        # every two-qubit Clifford tableau reachable as (1q x 1q) . entangler classes . (1q x 1q) is large; sample products of 24x24 locals around each entangler
+        loc = cirq.SingleQubitCliffordGate.all_single_qubit_cliffords
+        for g in [cirq.CZ, cirq.ISWAP, cirq.SWAP, None]:
+            for l0 in loc:
+                for l1 in loc:
+                    ops = [l0(ad.q(0)), l1(ad.q(1))] + ([g(ad.q(0), ad.q(1))] if g is not None else [])
+                    for ma in ((1, 0), (3, 0), (0, 1), (0, 3), (2, 2)):
+                        ctx.count('conj_2q_local', (str(g), str(l0), str(l1), ma), True)
+                        conj_case(ctx, ad, (UNITS[0], mask_items(ma)), ops, [0, 1], 'conjugated_by', 'conj_2q_local')
+    for it in range(count):
+        n = rng.choice([1, 2, 3, 3, 4, 5])
+        qs = list(range(n))
+        s = rand_ps(rng, n)
+        if rng.random() < 0.6:
+            s = (rng.choice(UNITS), s[1])
+        ops = [clifford_ops(cirq, rng, n, ad) for _ in range(rng.choice([1, 1, 2, 3, 5, 8]))]
+        which = rng.choice(['conjugated_by', 'before', 'after', 'inplace_before', 'inplace_after'])
+        ctx.count('conj_random', (s, [str(o) for o in ops], which), len(s[1]) > 0 and any(set(q.x for q in o.qubits) & set(k for k, _ in s[1]) for o in ops),
+                  sample=dict(string=str(ad.ps(s)), ops=[str(o) for o in ops], which=which))
+        conj_case(ctx, ad, s, ops, qs, which, 'conj_random')
+        # a CliffordGate object and a nested op tree
+        if n >= 2 and rng.random() < 0.3:
+            cg = cirq.CliffordGate.from_op_list(ops, [ad.q(k) for k in qs])
+            conj_case(ctx, ad, s, [cg.on(*[ad.q(k) for k in qs])], qs, 'conjugated_by', 'conj_random')
+            ctx.count('conj_random', (s, 'clifford_gate', [str(o) for o in ops]), True)
+
+
+# ---------------------------------------------------------------- oracles: rotations
+def expm_pauli(P, t):
+    """exp(i pi t (1 - P)/2) for an involution P: +1 eigenspace untouched, -1 eigenspace phased by e^{i pi t}."""
+    import scipy.linalg as sl
+    return sl.expm(1j * np.pi * t * (np.eye(len(P)) - P) / 2)
+
+
+def stream_rotations(ctx, ad, count):
+    cirq, rng = ad.cirq, ctx.rng
+    import scipy.linalg as sl
+    ts = [0, 0.25, 0.5, -0.5, 1, -1, 1.5, 2, 0.1, -0.37, 1 / 3]
+    for it in range(count):
+        n = rng.choice([1, 2, 2, 3, 3, 4])
+        qs = list(range(n))
+        qm = [ad.q(k) for k in qs]
+        items = rand_items(rng, n, 0.7)
+        sign = rng.choice([1, -1])
+        s = ((F(sign), F(0)), items)
+        p = ad.ps(s)
+        P = ad.mat(((F(1), F(0)), items), qs)
+        en, ep = rng.choice(ts), rng.choice(ts) if rng.random() < 0.5 else 0
+        # PauliStringPhasor, sometimes over an explicit superset of qubits (extra qubits carry the identity)
+        extra = rng.random() < 0.5
+        if extra:
+            order = [k for k, _ in items]
+            for k in qs:
+                if k not in dict(items):
+                    order.insert(rng.randint(0, len(order)), k)
+            ph = cirq.PauliStringPhasor(p, [ad.q(k) for k in order], exponent_neg=en, exponent_pos=ep)
+        else:
+            order = [k for k, _ in items]
+            ph = cirq.PauliStringPhasor(p, exponent_neg=en, exponent_pos=ep)
+        has_id = extra and len(order) > len(items)
+        got = cirq.Circuit(ph).unitary(qubit_order=qm) if order else cirq.unitary(ph) * np.eye(2 ** n)
+        S = sign * P
+        Pm, Pp = (np.eye(2 ** n) - S) / 2, (np.eye(2 ** n) + S) / 2
+        ref = np.exp(1j * np.pi * en) * Pm + np.exp(1j * np.pi * ep) * Pp
+        ctx.count('phasor', (s, en, ep, tuple(order)), len(items) > 0 and (en - ep) % 2 != 0,
+                  sample=dict(string=str(p), qubits=order, exponent_neg=en, exponent_pos=ep))
+        assert close(expm_pauli(S, en) @ (np.exp(1j * np.pi * ep) * sl.expm(-1j * np.pi * ep * (np.eye(2 ** n) - S) / 2)), ref)
+        # a phasor of the identity string is a scalar: compared up to global phase
+        ok = close(got, ref) if items else phase_equal(got, ref)
+        if not ok:
+            sig = 'phasor:identity-qubits-in-parity' if has_id else 'phasor:unitary'
+            ctx.violation(sig, f'PauliStringPhasor({p}, qubits={order}, exponent_neg={en}, exponent_pos={ep}): unitary is not '
+                               f'e^(i pi neg) on the -1 eigenspace and e^(i pi pos) on the +1 eigenspace of the string'
+                               + (' (qubits carrying the identity take part in the parity computation of the decomposition)' if has_id else ''),
+                          dict(kind='phasor', s=ser_ps(s), en=en, ep=ep, qubits=qs, order=order if extra else None))
+        # PauliString ** t with a unit coefficient e^(i pi theta): integer t is the matrix power, exactly; other t is
+        # e^(i pi theta t) exp(i pi t (1 - P)/2) up to the choice of branch, i.e. compared up to global phase
+        t = rng.choice(ts + [2, 3, -2, -3, 4])
+        if items:
+            c = rng.choice(UNITS)
+            pt = ad.ps((c, items))
+            r = pt ** t
+            theta = {UNITS[0]: 0.0, UNITS[1]: 0.5, UNITS[2]: 1.0, UNITS[3]: -0.5}[c]
+            got = cirq.Circuit(r).unitary(qubit_order=qm) if not isinstance(r, cirq.PauliString) else r.matrix(qm)
+            ctx.count('ps_pow', ((c, items), t), t % 2 != 0, sample=dict(string=str(pt), power=t, out=str(r)))
+            if float(t).is_integer():
+                ref = np.linalg.matrix_power(cz(c) * P, int(t))
+                if not close(got, ref):
+                    sig = 'ps_pow:int' + (':single-qubit-coefficient-dropped' if len(items) == 1 and c != UNITS[0] and phase_equal(got, ref) else '')
+                    ctx.violation(sig, f'({pt}) ** {t} = {r} is not the matrix power of the string (coefficient included)',
+                                  dict(kind='ps_pow', s=ser_ps((c, items)), t=t, qubits=qs))
+            else:
+                ref = np.exp(1j * np.pi * theta * t) * expm_pauli(P, t)
+                if not phase_equal(got, ref):
+                    ctx.violation('ps_pow:float', f'({pt}) ** {t} is not exp(i pi t (1-P)/2) up to global phase',
+                                  dict(kind='ps_pow', s=ser_ps((c, items)), t=t, qubits=qs))
+            # e ** (i a P) = exp(i a P)
+            a = rng.choice([0.3, -1.1, math.pi / 4, math.pi / 2, 2.0])
+            r = math.e ** ad.ps(((F(0), F(a).limit_denominator(1 << 20)), items))
+            av = float(F(a).limit_denominator(1 << 20))
+            ref = sl.expm(1j * av * P)
+            got = cirq.Circuit(r).unitary(qubit_order=qm)
+            ctx.count('ps_rpow', (items, av), True)
+            if not close(got, ref):
+                ctx.violation('ps_rpow', f'e ** ({av}j * P) for P={items} is not exp(i a P)', dict(kind='ps_rpow', items=[[k, p] for k, p in items], a=av, qubits=qs))
+        # PauliSumExponential of commuting terms
+        terms = []
+        for _ in range(rng.randint(1, 3)):
+            cand = ((F(rng.randint(-4, 4), 4), F(0)), rand_items(rng, n, 0.6))
+            if cand[0][0] != 0 and all(sorted(cand[1]) != sorted(t[1]) and bool(cirq.commutes(ad.ps(cand), ad.ps(t))) for t in terms):
+                terms.append(cand)
+        if terms:
+            anti = rng.random() < 0.3
+            tt = [((F(0), c[0]), it_) if anti else (c, it_) for c, it_ in terms]
+            e = rng.choice([0.7, 1.0, -0.4, math.pi / 2])
+            psum = ad.psum(tt)
+            try:
+                pse = cirq.PauliSumExponential(psum, e)
+            except Exception as ex:
+                ctx.violation('psumexp:raises', f'PauliSumExponential({psum}) raised {type(ex).__name__}: {ex}',
+                              dict(kind='psumexp', terms=[ser_ps(t) for t in tt], e=e))
+                continue
+            uq = list(pse.qubits)
+            H = sum_matrix(ad, [(c, it_) for c, it_ in terms], [q.x for q in uq])
+            ref = sl.expm(1j * e * H)
+            factors = list(pse)
+            prod = cirq.Circuit(factors).unitary(qubit_order=uq) if uq else np.eye(1)
+            overlapping = len(uq) != sum(len(t[1]) for t in terms) or [q for f in factors for q in f.qubits] != uq
+            ctx.count('psum_exponential', (tt, e), len(terms) > 1, sample=dict(sum=str(psum), exponent=e, factors=[str(f) for f in factors]))
+            if not phase_equal(prod, ref):
+                ctx.violation('psumexp:factors', f'the rotation factors of PauliSumExponential({psum}, {e}) do not multiply to exp(i e H)',
+                              dict(kind='psumexp', terms=[ser_ps(t) for t in tt], e=e))
+            m = pse.matrix()
+            if not (close(m, ref) or (m.shape == ref.shape and phase_equal(m, ref))):
+                sig = 'psumexp:matrix-kron-of-factors' if overlapping else 'psumexp:matrix'
+                ctx.violation(sig, f'PauliSumExponential({psum}, {e}).matrix() has shape {m.shape} and is not the product of its rotation '
+                                   f'factors (shape {ref.shape}) even up to global phase: it takes the Kronecker product of the factor unitaries',
+                              dict(kind='psumexp_matrix', terms=[ser_ps(t) for t in tt], e=e))
+
+
+def phase_equal(a, b):
+    i = np.argmax(np.abs(b))
+    if abs(a.flat[i]) < 1e-9:
+        return False
+    return bool(np.allclose(a * (b.flat[i] / a.flat[i]), b, atol=ATOL))
+
+
+# ---------------------------------------------------------------- oracles: expectation values
+def rand_state(rng, n):
+    v = np.array([complex(rng.gauss(0, 1), rng.gauss(0, 1)) for _ in range(2 ** n)])
+    return v / np.linalg.norm(v)
+
+
+def stream_expectation(ctx, ad, count):
+    cirq, rng = ad.cirq, ctx.rng
+    for it in range(count):
+        n = rng.choice([1, 2, 3, 3, 4, 5])
+        k = rng.randint(0, n)
+        support = rng.sample(range(n), k)          # qubit ids of the string
+        items = [(q, rng.randint(1, 3)) for q in support]
+        c = (F(rng.randint(-8, 8), 4), F(0))
+        s = (c, items)
+        p = ad.ps(s)
+        pos = rng.sample(range(n), n)               # qubit id -> axis
+        qmap = {ad.q(q): pos[q] for q in range(n)}
+        if rng.random() < 0.3:
+            qmap = {ad.q(q): pos[q] for q in support}     # only the needed keys
+        by_axis = sorted(range(n), key=lambda q: pos[q])
+        P = ad.mat(s, by_axis)
+        psi = rand_state(rng, n)
+        dtype = rng.choice([np.complex128, np.complex64])
+        tol = 1e-6 if dtype == np.complex128 else 2e-4
+        vec = psi.astype(dtype)
+        if rng.random() < 0.3:
+            vec = vec.reshape((2,) * n)
+        got = p.expectation_from_state_vector(vec, qmap, atol=1e-3)
+        ref = np.vdot(psi, P @ psi)
+        ctx.count('expectation_state_vector', (s, pos, it), k > 0, sample=dict(string=str(p), axes=pos, expectation=str(complex(got))))
+        if abs(got - ref) > tol:
+            ctx.violation('expectation:state_vector', f'{p}.expectation_from_state_vector with qubit_map {pos}: {got} vs <psi|P|psi> = {ref}',
+                          dict(kind='expect', s=ser_ps(s), pos=pos, n=n, seed=it, mode='sv'))
+        # density matrix: a random mixture of two pure states
+        phi = rand_state(rng, n)
+        w = rng.random()
+        rho = w * np.outer(psi, psi.conj()) + (1 - w) * np.outer(phi, phi.conj())
+        rr = rho.astype(dtype)
+        if rng.random() < 0.3:
+            rr = rr.reshape((2,) * (2 * n))
+        got = p.expectation_from_density_matrix(rr, qmap, atol=1e-3)
+        ref = np.trace(rho @ P)
+        ctx.count('expectation_density_matrix', (s, pos, it), k > 0)
+        if abs(got - ref) > tol:
+            ctx.violation('expectation:density_matrix', f'{p}.expectation_from_density_matrix with qubit_map {pos}: {got} vs tr(rho P) = {ref}',
+                          dict(kind='expect', s=ser_ps(s), pos=pos, n=n, seed=it, mode='dm'))
+        # PauliSum, and the simulator
+        terms = [((F(rng.randint(-6, 6), 2), F(0)), rand_items(rng, n, 0.5)) for _ in range(rng.randint(1, 3))]
+        S_ = ad.psum(terms)
+        full = {ad.q(q): pos[q] for q in range(n)}
+        M = sum_matrix(ad, terms, by_axis)
+        g1 = S_.expectation_from_state_vector(psi.astype(np.complex128), full)
+        g2 = S_.expectation_from_density_matrix(rho.astype(np.complex128), full)
+        ctx.count('expectation_sum', (terms, pos, it), True)
+        if abs(g1 - np.vdot(psi, M @ psi)) > 1e-6 or abs(g2 - np.trace(rho @ M)) > 1e-6:
+            ctx.violation('expectation:sum', f'PauliSum {S_} expectation with qubit_map {pos} differs from <psi|H|psi> / tr(rho H)',
+                          dict(kind='expect_sum', terms=[ser_ps(t) for t in terms], pos=pos, n=n, seed=it))
+        if it % 4 == 0 and n <= 4:
+            circ = cirq.Circuit([clifford_ops(cirq, rng, n, ad) for _ in range(4)] + [cirq.T(ad.q(rng.randrange(n)))] +
+                                [cirq.I(ad.q(q)) for q in range(n)])
+            order = [ad.q(q) for q in by_axis]
+            out = cirq.Simulator(dtype=np.complex128).simulate_expectation_values(circ, [p, S_], qubit_order=order)
+            st = circ.final_state_vector(qubit_order=order, dtype=np.complex128)
+            refs = [np.vdot(st, P @ st), np.vdot(st, M @ st)]
+            out_d = cirq.DensityMatrixSimulator(dtype=np.complex128).simulate_expectation_values(circ, [p, S_], qubit_order=order)
+            ctx.count('expectation_simulator', (s, terms, pos, it), True)
+            if any(abs(a - b) > 1e-6 for a, b in zip(out, refs)) or any(abs(a - b) > 1e-6 for a, b in zip(out_d, refs)):
+                ctx.violation('expectation:simulator', f'simulate_expectation_values({p}, {S_}) with qubit order {by_axis}: {out} / {out_d} vs {refs}',
+                              dict(kind='expect_sim', s=ser_ps(s), terms=[ser_ps(t) for t in terms], pos=pos, n=n, seed=it))
+
+
 # ---------------------------------------------------------------- driver
 def run(ctx):
     cirq = env.import_cirq()
     ad = A(cirq)
     ctx.rule = ('Pauli strings as (Gaussian-rational coefficient, ordered qubit->letter items); exhaustive ordered pairs of letter '
-                'patterns on <=3 qubits and triples on <=2 qubits with unit coefficients, random strings on <=5 qubits with dyadic '
-                'Gaussian coefficients and shuffled dict orders; results compared exactly (coefficient, letters per qubit) with '
-                'the Gallina model by vm_compute, and as matrices with numpy references (tol 1e-8); non-trivial = operands share '
-                'a qubit / result is not an operand; distinct by canonical input')
+                'patterns on <=3 qubits and triples on <=2 qubits with unit coefficients (PauliString) and pairs on <=2 positions '
+                '(DensePauliString), random strings / dense strings / sums on <=5 qubits with dyadic Gaussian coefficients, shuffled '
+                'dict orders, all spellings of each operator; results compared exactly (coefficient, letter per qubit, term '
+                'coefficients) with the Gallina model by vm_compute and as matrices with numpy references (tol 1e-8); Clifford '
+                'conjugation (all 24 one-qubit Cliffords, named two-qubit Cliffords on all 15 strings, random Clifford circuits), '
+                'PauliStringPhasor / P**t / e**(iaP) / PauliSumExponential against scipy expm, expectation values against '
+                '<psi|P|psi> and tr(rho P) for random states and qubit maps; non-trivial = operands share a qubit / operator is '
+                'not the identity case; distinct by canonical input')
     ctx.assumptions += ['vf/checks/c14.py adapters calling Cirq and printing exact rationals',
-                        'binary64 arithmetic is exact on the generated dyadic coefficients (checked: results are compared exactly)',
-                        'numpy/scipy reference linear algebra for the matrix-level oracles (tolerance 1e-8)']
+                        'binary64 arithmetic is exact on the generated dyadic coefficients (results are compared exactly)',
+                        'numpy/scipy reference linear algebra for the matrix-level oracles (tolerance 1e-8; 1e-6 / 2e-4 for expectation values in complex128 / complex64)',
+                        'conjugation, rotations and expectation values are compared with references on generated inputs, not proved']
     err = tables.regenerate(['PauliTables'])
     if err['PauliTables']:
         ctx.mark_broken('table:PauliTables', err['PauliTables'])
     ctx.set_obligations(coq.compile_props('C14'))
     quick = ctx.tier == 'quick'
-    stream_mul_exhaustive(ctx, ad, [1, 2, 3] if quick else [1, 2, 3], [1, 2] if quick else [1, 2])
+    stream_mul_exhaustive(ctx, ad, [1, 2, 3], [1, 2])
+    stream_ps_random(ctx, ad, 150 if quick else 2500)
+    stream_dense(ctx, ad, 150 if quick else 2500, [1, 2] if quick else [1, 2, 3])
+    stream_sums(ctx, ad, 150 if quick else 2500)
+    stream_conjugation(ctx, ad, 150 if quick else 3000, not quick)
+    stream_rotations(ctx, ad, 100 if quick else 1500)
+    stream_expectation(ctx, ad, 100 if quick else 1500)
 
 
 def replay(ctx, data):
     cirq = env.import_cirq()
     ad = A(cirq)
     k = data.get('kind')
+
+    class Probe:
+        """Re-run one oracle and record whether it reported a violation."""
+        def __init__(self):
+            self.hit = []
+            self.rng = ctx.rng
+
+        def violation(self, sig, what, replay):
+            self.hit.append((sig, what))
+
+        def count(self, *a, **kw):
+            pass
+
+    pr = Probe()
     if k == 'product':
         ops = [deser_ps(d) for d in data['operands']]
         qs = data['qubits']
@@ -278,9 +1199,99 @@ def replay(ctx, data):
         for s in ops[1:]:
             r = r * ad.ps(s)
         print('product ->', r)
-        ref = np.eye(2 ** len(qs), dtype=complex)
-        for s in ops:
-            ref = ref @ ad.mat(s, qs)
-        return bool(np.allclose(r.matrix([ad.q(i) for i in qs]), ref, atol=ATOL))
-    print('nothing to replay for kind', k)
-    return False
+        check_product_matrix(pr, ad, 'replay', ops, r, qs)
+    elif k == 'dense_times_string':
+        dense_times_string(pr, ad, deser_ds(data['a']), deser_ps(data['s']), data['left'], count=False)
+    elif k == 'conj':
+        ops = [cirq.read_json(json_text=t) for t in data['ops']]
+        conj_case(pr, ad, deser_ps(data['s']), ops, data['qubits'], data['which'], 'replay')
+    elif k in ('psumexp_matrix', 'psumexp'):
+        import scipy.linalg as sl
+        tt = [deser_ps(d) for d in data['terms']]
+        pse = cirq.PauliSumExponential(ad.psum(tt), data['e'])
+        uq = list(pse.qubits)
+        herm = [((c[0] if c[1] == 0 else c[1], F(0)), it_) for c, it_ in tt]
+        ref = sl.expm(1j * data['e'] * sum_matrix(ad, herm, [q.x for q in uq]))
+        prod = cirq.Circuit(list(pse)).unitary(qubit_order=uq)
+        m = pse.matrix()
+        print('matrix() shape', m.shape, 'reference shape', ref.shape, 'factors multiply to reference:', close(prod, ref))
+        if not close(prod, ref) or not (close(m, ref) or (m.shape == ref.shape and phase_equal(m, ref))):
+            pr.hit.append(('psumexp', 'matrix() differs from the product of the rotation factors'))
+    elif k == 'phasor':
+        s = deser_ps(data['s'])
+        qs = data['qubits']
+        qm = [ad.q(i) for i in qs]
+        sign = float(s[0][0])
+        P = ad.mat(((F(1), F(0)), s[1]), qs) * sign
+        order = data.get('order')
+        ph = cirq.PauliStringPhasor(ad.ps(s), [ad.q(i) for i in order] if order is not None else None,
+                                    exponent_neg=data['en'], exponent_pos=data['ep'])
+        print(repr(ph))
+        got = cirq.Circuit(ph).unitary(qubit_order=qm)
+        I_ = np.eye(len(P))
+        ref = np.exp(1j * np.pi * data['en']) * (I_ - P) / 2 + np.exp(1j * np.pi * data['ep']) * (I_ + P) / 2
+        if not close(got, ref):
+            pr.hit.append(('phasor', 'unitary differs'))
+    elif k == 'ps_pow':
+        s = deser_ps(data['s'])
+        qs, t = data['qubits'], data['t']
+        qm = [ad.q(i) for i in qs]
+        r = ad.ps(s) ** t
+        print(f'({ad.ps(s)}) ** {t} ->', repr(r))
+        got = cirq.Circuit(r).unitary(qubit_order=qm) if not isinstance(r, cirq.PauliString) else r.matrix(qm)
+        if float(t).is_integer():
+            if not close(got, np.linalg.matrix_power(ad.mat(s, qs), int(t))):
+                pr.hit.append(('ps_pow', 'not the matrix power'))
+        else:
+            theta = np.angle(cz(s[0])) / np.pi
+            if not phase_equal(got, np.exp(1j * np.pi * theta * t) * expm_pauli(ad.mat(((F(1), F(0)), s[1]), qs), t)):
+                pr.hit.append(('ps_pow', 'not the rotation'))
+    elif k == 'expect':
+        s = deser_ps(data['s'])
+        n, pos = data['n'], data['pos']
+        rng = np.random.RandomState(data.get('seed', 0))
+        psi = rng.randn(2 ** n) + 1j * rng.randn(2 ** n)
+        psi /= np.linalg.norm(psi)
+        by_axis = sorted(range(n), key=lambda q: pos[q])
+        P = ad.mat(s, by_axis)
+        qmap = {ad.q(q): pos[q] for q in range(n)}
+        got = ad.ps(s).expectation_from_state_vector(psi, qmap)
+        got2 = ad.ps(s).expectation_from_density_matrix(np.outer(psi, psi.conj()), qmap)
+        ref = np.vdot(psi, P @ psi)
+        print('expectation', got, got2, 'reference', ref)
+        if abs(got - ref) > 1e-6 or abs(got2 - ref) > 1e-6:
+            pr.hit.append(('expect', 'differs'))
+    elif k == 'commutes':
+        a, b, qs = deser_ps(data['a']), deser_ps(data['b']), data['qubits']
+        rc = bool(cirq.commutes(ad.ps(a), ad.ps(b)))
+        ma, mb = ad.mat(a, qs), ad.mat(b, qs)
+        if not close(ma @ mb, (1 if rc else -1) * (mb @ ma)):
+            pr.hit.append(('commutes', 'differs'))
+    elif k == 'dense_product':
+        a, b = deser_ds(data['a']), deser_ds(data['b'])
+        out = ad.dout(ad.dps(a) * ad.dps(b))
+        n = max(len(a[1]), len(b[1]))
+        pad = lambda m: list(m) + [0] * (n - len(m))
+        ref = cz(a[0]) * kron_all([PM[p] for p in pad(a[1])]) @ (cz(b[0]) * kron_all([PM[p] for p in pad(b[1])]))
+        if not close(cz(out[0]) * kron_all([PM[p] for p in out[1]]), ref):
+            pr.hit.append(('dense_product', 'differs'))
+    elif k == 'psum':
+        qs = data['qubits']
+        qm = [ad.q(i) for i in qs]
+        ta, tb = [deser_ps(d) for d in data['a']], [deser_ps(d) for d in data['b']]
+        A_, B_ = ad.psum(ta), ad.psum(tb)
+        MA, MB = sum_matrix(ad, ta, qs), sum_matrix(ad, tb, qs)
+        res, ref = {'+': (A_ + B_, MA + MB), '-': (A_ - B_, MA - MB), '*': (A_ * B_, MA @ MB), 'from': (A_, MA)}[data['op']]
+        if not close(res.matrix(qm), ref):
+            pr.hit.append(('psum', 'differs'))
+    elif k == 'broken':
+        print('no failing input was found; the broken obligations / correspondence streams were:')
+        for b in data.get('broken', []):
+            print(' ', b['name'], '-', b['detail'][:300])
+        return False
+    else:
+        print('nothing to replay for kind', k)
+        return False
+    for sig, what in pr.hit:
+        print('FAILS:', sig, '-', what)
+    return not pr.hit
